@@ -164,6 +164,11 @@ def _run(chk, tier, rng, binary, gdir):
                 add("struct%dx%dx%d" % (nx, ny, nz), fam, dim, src, {"kind": "iter", "n": n, "tinit_ms": 0, "tmut_ms": 0, "rep": rep}, 1, maxcells)
         for n in (1, 2, 4, 6, 8, 16):
             add("struct%dx%dx%d" % (nx, ny, nz), fam, dim, src, {"kind": "2lvl", "n": n}, 1, maxcells)
+        # the same partitioning step with an explicit seed (reproducible)
+        for n in ([2, 3, 4, 5, 8] if thorough else [2, 3]):
+            for k in range(12 if thorough else 4):
+                add("struct%dx%dx%d" % (nx, ny, nz), fam, dim, src,
+                    {"kind": "iterseed", "n": n, "seed": 1000 * vlib.seed() + 17 * k + n, "mutations": k % 3}, 1, maxcells)
         # seeded random assignments (more than 6 cells: sampled)
         nc = nx * ny * (nz if dim == 3 else 1) * (1 if fam == "hypercube" else 4)
         for k in range(8 if thorough else 3):
@@ -187,30 +192,25 @@ def _run(chk, tier, rng, binary, gdir):
             continue
         desc = rr.get("why") or ("outcome %s: %s" % (rr.get("outcome"), (rr.get("stderr") or "")[:700]))
         slim = {k: c[k] for k in c if k != "out"}
-        chk.violation(sig(c, "harness:" + str(rr.get("outcome", "bad")), -1), "%s (%s, %s): %s" % (c["id"], c["srcname"], json.dumps(c["parti"])[:200], desc),
+        sg = sig(c, "harness:" + str(rr.get("outcome", "bad")), -1)
+        sg["exc"] = "out_of_range" if "out_of_range" in desc else ("other" if rr.get("outcome") == "exception" else "")
+        chk.violation(sg, "%s (%s, %s): %s" % (c["id"], c["srcname"], json.dumps(c["parti"])[:200], desc),
                       {"kind": "case", "harness": "c12_parti", "case": slim, "result": rr})
     vlib.log("[C12] harness done %.1fs (%d cases)" % (time.time() - chk.t0, len(cases)))
 
-    # ---- 4. TLC judges ----
-    full = []
-    for c in good:
-        with open(c["out"]) as f:
-            d = json.loads(f.readline())
-        d["wantlevels"] = c["nref"] + 1
-        full.append(d)
+    # ---- 4. TLC judges (streamed) ----
     byid = {c["id"]: c for c in good}
-
-    def weight(d):
-        return 200 + sum(sum(Lv["base"]["n"]) * (2 + d["nranks"] // 2) for Lv in d["levels"])
-    verdicts = vmeshlib.run_tlc_batches(chk, "PartitionCheck", "C12_BATCH", full, "c12", max_procs=6, weight=weight)
+    items = [{"id": c["id"], "path": c["out"], "weight": 3000 + os.path.getsize(c["out"]), "extra": {"wantlevels": c["nref"] + 1}} for c in good]
+    verdicts, infos = vmeshlib.run_tlc_stream(chk, "PartitionCheck", "C12_BATCH", items, "c12", prepare="load_c12", max_procs=6, cap_weight=12000000)
     nfail2lvl = 0
     single = 0
+    full = [infos[c["id"]] for c in good]
     for d in full:
         c = byid[d["id"]]
         v = verdicts.get(d["id"])
         if v is None:
             raise vlib.MachineryError("no verdict for " + d["id"])
-        if not d["parti"]["success"]:
+        if not d["success"]:
             nfail2lvl += 1
         single += v["info"]["single"]
         slim = {k: c[k] for k in c if k != "out"}
@@ -221,7 +221,7 @@ def _run(chk, tier, rng, binary, gdir):
     chk.extra["partitioner_reported_failure"] = nfail2lvl
     chk.extra["neighbour_pairs_touching_in_one_vertex"] = single
     chk.extra["max_ranks"] = max([d["nranks"] for d in full] or [0])
-    chk.extra["largest_fine_base_cells"] = max([d["levels"][-1]["base"]["n"][-1] for d in full if d["levels"]] or [0])
+    chk.extra["largest_fine_base_cells"] = max([d["fine_cells"] for d in full] or [0])
     chk.exhaustive = True
     chk.rule = ("TLC enumerates (spec/PartitionGen.tla) every assignment of the cells to 1..#cells non-empty ranks for all base meshes with <= 6 cells "
                 "(quick: one labelling per set partition for 5 and 6 cells) and for the two-/three-cell gluings of spec/MeshGen.tla; plus Parti2Lvl for "
